@@ -47,7 +47,10 @@ func NewSchema(s specification.Ref[specification.Schema], components Componenter
 
 	var customType Maybe[CustomType]
 	if specCustom, ok := schema.Value().Custom.Get(); ok {
-		ct, is := NewCustomType(specCustom, st)
+		ct, is, err := NewCustomType(specCustom, st)
+		if err != nil {
+			return zero, nil, err
+		}
 		customType = Just(ct)
 		ims = append(ims, is...)
 	}
